@@ -10,6 +10,9 @@ package parsepath
 //   - strconv.ParseInt is a contract stub: any value of the requested bit size, or an error.
 //     (The numeric value of an escape sequence is therefore outside the claim.)
 //   - strconv.QuoteRune returns an opaque text.
+//   - utf8.DecodeRune is modelled by verifDecodeRune, written from the well-formed byte sequence
+//     table of the Unicode standard (comparisons instead of the library's 256-entry lookup
+//     tables, which cost ~10x in solver time); native replays run the library decoder.
 
 import (
 	"errors"
@@ -18,6 +21,7 @@ import (
 
 //verif:cut (*regexp.Regexp).FindIndex verifFindIndex
 //verif:cut strconv.QuoteRune verifQuoteRune
+//verif:cut unicode/utf8.DecodeRune verifDecodeRune
 
 func verifQuoteRune(r rune) string { return "'?'" }
 
@@ -32,6 +36,52 @@ func verifParseInt(s string, base int, bitSize int) (int64, error) {
 		v = int64(int32(v))
 	}
 	return v, nil
+}
+
+func verifDecodeRune(p []byte) (rune, int) {
+	const bad = rune(0xFFFD)
+	n := len(p)
+	if n < 1 {
+		return bad, 0
+	}
+	p0 := p[0]
+	if p0 < 0x80 {
+		return rune(p0), 1
+	}
+	if p0 < 0xC2 || p0 > 0xF4 {
+		return bad, 1
+	}
+	cont := func(c byte) bool { return c >= 0x80 && c <= 0xBF }
+	if p0 < 0xE0 {
+		if n < 2 || !cont(p[1]) {
+			return bad, 1
+		}
+		return rune(p0&0x1F)<<6 | rune(p[1]&0x3F), 2
+	}
+	lo, hi := byte(0x80), byte(0xBF)
+	switch p0 {
+	case 0xE0:
+		lo = 0xA0
+	case 0xED:
+		hi = 0x9F
+	case 0xF0:
+		lo = 0x90
+	case 0xF4:
+		hi = 0x8F
+	}
+	if n < 2 || p[1] < lo || p[1] > hi {
+		return bad, 1
+	}
+	if p0 < 0xF0 {
+		if n < 3 || !cont(p[2]) {
+			return bad, 1
+		}
+		return rune(p0&0x0F)<<12 | rune(p[1]&0x3F)<<6 | rune(p[2]&0x3F), 3
+	}
+	if n < 4 || !cont(p[2]) || !cont(p[3]) {
+		return bad, 1
+	}
+	return rune(p0&0x07)<<18 | rune(p[1]&0x3F)<<12 | rune(p[2]&0x3F)<<6 | rune(p[3]&0x3F), 4
 }
 
 func vfDigit(c byte) bool { return c >= '0' && c <= '9' }
@@ -129,6 +179,56 @@ func verifFindIndex(re *regexp.Regexp, b []byte) []int {
 	return []int{0, n}
 }
 
+// verifCheckToken: what one call of scan must satisfy, given the position it started from.
+func verifCheckToken(s *scanner, buf []byte, before int, tok *token) {
+	n := len(buf)
+	verifAssert(tok != nil, "scan returns a token")
+	verifAssert(s.pos >= 0 && s.pos <= n, "scanner position stays within the input")
+	verifAssert(tok.Pos >= 0 && tok.Pos <= n, "token position is within the input")
+	verifAssert(tok.Kind >= ident && tok.Kind <= eof, "token kind is one of the declared kinds")
+	verifObserve("kind", int(tok.Kind))
+	verifObserve("pos", tok.Pos)
+	verifObserve("next", s.pos)
+	if tok.Kind == eof {
+		verifAssert(before >= n, "eof only at the end of the input")
+		verifAssert(s.pos == before, "eof consumes nothing")
+		return
+	}
+	verifAssert(before < n, "a token other than eof needs input")
+	verifAssert(s.pos > before, "every token consumes input")
+	switch tok.Kind {
+	case ident, intlit:
+		verifAssert(tok.Pos == before, "literal starts where the scan started")
+		verifAssert(tok.Text == string(buf[before:s.pos]), "literal text is the bytes consumed")
+		if tok.Kind == ident {
+			verifAssert(vfLetter(buf[before]), "identifier starts with a letter or underscore")
+			verifAssert(s.pos == n || !(vfLetter(buf[s.pos]) || vfDigit(buf[s.pos])), "identifier is maximal")
+		}
+	case dot, oparen, cparen, obrack, cbrack:
+		verifAssert(s.pos == before+1 && tok.Pos == before, "punctuation is one byte")
+		want := map[tokenKind]byte{dot: '.', oparen: '(', cparen: ')', obrack: '[', cbrack: ']'}[tok.Kind]
+		verifAssert(buf[before] == want, "punctuation kind matches its byte")
+	case strlit:
+		verifAssert(buf[before] == '"' || buf[before] == '\'', "string literal starts with a quote")
+		verifAssert(buf[s.pos-1] == buf[before] && s.pos >= before+2, "string literal ends with the same quote")
+		verifAssert(tok.Pos == before, "string literal position is its opening quote")
+	}
+}
+
+// VerifC19ScanStep: one call of scan from an arbitrary position of an arbitrary n-byte input.
+// Progress and confinement of every single step give, by induction on the position, termination
+// within n+1 calls and no panic for the whole input.
+func VerifC19ScanStep(n int) {
+	verifUnwind(4*n + 8)
+	buf := verifNondetBytes("path", n)
+	start := verifPick("start", n+1)
+	s := &scanner{buf: buf, pos: start}
+	tok := s.scan()
+	verifCheckToken(s, buf, start, tok)
+	verifReach("end")
+}
+
+// VerifC19Scan: the whole token sequence of an arbitrary n-byte input.
 func VerifC19Scan(n int) {
 	verifUnwind(4*n + 8)
 	buf := verifNondetBytes("path", n)
@@ -138,39 +238,26 @@ func VerifC19Scan(n int) {
 		before := s.pos
 		tok := s.scan()
 		calls++
-		verifAssert(tok != nil, "scan returns a token")
-		verifAssert(s.pos >= 0 && s.pos <= n, "scanner position stays within the input")
-		verifAssert(tok.Pos >= 0 && tok.Pos <= n, "token position is within the input")
-		verifAssert(tok.Kind >= ident && tok.Kind <= eof, "token kind is one of the declared kinds")
-		verifObserve("kind", int(tok.Kind))
-		verifObserve("pos", tok.Pos)
-		verifObserve("next", s.pos)
+		verifCheckToken(s, buf, before, tok)
 		if tok.Kind == eof {
-			verifAssert(before >= n, "eof only at the end of the input")
 			break
 		}
-		verifAssert(s.pos > before, "every token consumes input")
 		verifAssert(calls <= n, "at most one token per input byte")
-		switch tok.Kind {
-		case ident, intlit:
-			verifAssert(tok.Pos == before, "literal starts where the scan started")
-			verifAssert(tok.Text == string(buf[before:s.pos]), "literal text is the bytes consumed")
-			if tok.Kind == ident {
-				verifAssert(vfLetter(buf[before]), "identifier starts with a letter or underscore")
-				verifAssert(s.pos == n || !(vfLetter(buf[s.pos]) || vfDigit(buf[s.pos])), "identifier is maximal")
-			}
-		case dot, oparen, cparen, obrack, cbrack:
-			verifAssert(s.pos == before+1 && tok.Pos == before, "punctuation is one byte")
-			want := map[tokenKind]byte{dot: '.', oparen: '(', cparen: ')', obrack: '[', cbrack: ']'}[tok.Kind]
-			verifAssert(buf[before] == want, "punctuation kind matches its byte")
-		case strlit:
-			verifAssert(buf[before] == '"' || buf[before] == '\'', "string literal starts with a quote")
-			verifAssert(buf[s.pos-1] == buf[before] && s.pos >= before+2, "string literal ends with the same quote")
-		}
 	}
 	verifReach("end")
 }
 
+func verifPick(name string, n int) int {
+	v := int(verifNondetU8(name))
+	verifAssume(v < n, "choice within its range")
+	return verifConcretize(v, 0, n-1)
+}
+
+func VerifC19ScanStep4() { VerifC19ScanStep(4) }
+func VerifC19ScanStep5() { VerifC19ScanStep(5) }
+func VerifC19ScanStep6() { VerifC19ScanStep(6) }
+func VerifC19ScanStep7() { VerifC19ScanStep(7) }
+func VerifC19ScanStep8() { VerifC19ScanStep(8) }
 func VerifC19Scan0() { VerifC19Scan(0) }
 func VerifC19Scan1() { VerifC19Scan(1) }
 func VerifC19Scan2() { VerifC19Scan(2) }
